@@ -205,14 +205,18 @@ CHECKS = {
     },
     'C02': {
         'category': 'proof',
-        'technique': 'contract-based deductive verification: loop invariants (prefix-sum ghost, positional stacks) on the real shunting-yard fragment with symbolic precedence/associativity tags; bounded reference for the tree shape',
+        'technique': 'contract-based deductive verification: loop invariants over positional stacks with ghost state (prefix sums, per-slot tree records, occurrence numbers) on the real shunting-yard fragment with symbolic precedence/kind tags; per-construction shape obligations; bounded brute-force reference as cross-check',
         'text': 'The emitted operator-table fragment is proved over abstract operand/prefix/infix/postfix children whose values carry SYMBOLIC (precedence, '
-                'associativity) tags - one run covers all tables, all inputs, unbounded: every pop/index/unpack is safe (ghost prefix sums of infix entries: '
+                'kind) tags - one run covers all tables, all inputs, unbounded: every pop/index/unpack is safe (ghost prefix sums of infix entries: '
                 'operands = infix entries + phase), the expression ends right after the last operand or postfix operator parsed (a dangling operator is left '
-                'unconsumed; a second non-associative operator ends the expression), exactly one tree remains, status/flags are right. Tagging by '
-                'OperatorTable.create: case-complete. Longest/Apply/Choice by their contracts.',
-        'design_ref': 'DESIGN.md 6 C02',
-        'note': 'BOUNDED, not counted as proved: the shape of the tree (precedence, associativity, in-order fringe, longest run) is compared with a brute-force '
-                'reference of the statement on all token sequences up to length 6 (quick) / 8 (thorough) over 6 tables. The full shunting-yard shape invariant is not attempted.',
+                'unconsumed; a second non-associative operator ends the expression), exactly one tree remains, status/flags are right - and the SHAPE: every '
+                'Infix/Prefix/Postfix construction of the real code carries the local clauses of the statement as obligations (adjacent occurrences in input order, '
+                'left operand binds tighter or equally in a left row, right operand tighter or equally in a right row, prefix/postfix operands at least as tight, '
+                'stored operator = popped operator); stack invariants W0-W5/K1-K8 carry them through the six loops; the result is well-shaped, spans exactly the '
+                'committed occurrences, and the run ends only for the three reasons of the statement. Tagging by OperatorTable.create: case-complete (one kind per row). '
+                'Longest/Apply/Choice by their contracts.',
+        'design_ref': 'DESIGN.md 0 (deviation 5), 6 C02',
+        'note': 'Not proved: uniqueness of the well-shaped tree and optimality of the greedy run (that no longer run fits); whole-tree well-shapedness from the per-node clauses is a '
+                'two-line induction on paper. BOUNDED cross-check, never counted as proved: brute-force reference of the statement on all token sequences up to length 6 (quick) / 8 (thorough) over 6 tables.',
     },
 }
